@@ -134,6 +134,15 @@ func refDigest(e *abiref.Exported, c *snpConst, img []byte, f snpFw, ops []snpOp
 	return d
 }
 
+// concKind: the model's kind 9 stands for any kind value the ABI does not define
+func concKind(k uint32, seed int64) uint32 {
+	if k != 9 {
+		return k
+	}
+	pool := []uint32{9, 5, 0x10, 0x420, 0xffffffff, 0x80000001, 0x104, 0}
+	return pool[int(uint64(seed)*2654435761>>7)%len(pool)]
+}
+
 func buildSnpImage(f snpFw, seed int64, resetAddr uint32) ([]byte, error) {
 	img := make([]byte, f.Rom*4096)
 	r := rand.New(rand.NewSource(seed))
@@ -142,7 +151,7 @@ func buildSnpImage(f snpFw, seed int64, resetAddr uint32) ([]byte, error) {
 	r.Read(img[len(img)-4096+0x200 : len(img)-4096+0xe00])
 	var secs []oabi.SevMetadataSection
 	for _, s := range f.Secs {
-		secs = append(secs, oabi.SevMetadataSection{Address: concAddrAt(s.Addr, f.Base), Length: concLen(s.Len), Kind: s.Kind})
+		secs = append(secs, oabi.SevMetadataSection{Address: concAddrAt(s.Addr, f.Base), Length: concLen(s.Len), Kind: concKind(s.Kind, seed)})
 	}
 	if err := fakeovmf.InitializeSevGUIDTable(img, oabi.FwGUIDTableEndOffset, resetAddr, secs); err != nil {
 		return nil, err
@@ -187,9 +196,12 @@ func RunC04(run *vk.Run) {
 	run.Assumptions = append(run.Assumptions, "TLC decides the order of operations, page types, addresses in page units and the rejection rules; byte-level agreement is decided by executing the spec-derived operation sequence through the PAGE_INFO / VMSA layout tables and comparing digests",
 		"page contents are pseudo-random, section addresses come from a small pool below 4 GiB; sections crossing 4 GiB are not enumerated",
 		"the oracle is calibrated against the measurement pinned in the repository's tests (verifytest.CleanExampleMeasurement)")
-	cfgs := []string{"quick", "bad", "rom"}
+	// "unknown": all lists up to 4 over the three mandatory kinds and two kinds the ABI does not define, so
+	// that descriptions whose only defect is a range of unknown kind exist (with 3 sections an unknown kind
+	// always comes with a missing mandatory one)
+	cfgs := []string{"quick", "bad", "rom", "unknown"}
 	if !run.IsQuick() {
-		cfgs = []string{"quick", "bad", "four", "rom_thorough"}
+		cfgs = []string{"quick", "bad", "four", "rom_thorough", "unknown"}
 	}
 	var consts *snpConst
 	type emitted struct {
@@ -418,6 +430,62 @@ func RunC04(run *vk.Run) {
 			}
 		}
 	}
+	// the measurement is a function of the image bytes, not of the buffer that holds them or of what was
+	// measured before: one buffer is measured, changed in place (ROM byte, AP reset vector, another image
+	// of the same size loaded into it) and measured again, with nothing else measured in between; the
+	// expectations come from the definition, never from another LaunchDigest call
+	for _, prod := range []string{"Milan", "Genoa"} {
+		for _, vc := range []int{1, 2, 8} {
+			hf := snpFw{Rom: 3, Vcpus: vc, Product: prod, Secs: []snpSec{{Kind: 1, Addr: 1, Len: 1}, {Kind: 2, Addr: 2, Len: 1}, {Kind: 3, Addr: 3, Len: 1}}}
+			hops := func() []snpOp {
+				ops := []snpOp{{"NORMAL", "rom", 0}, {"NORMAL", "rom", 1}, {"NORMAL", "rom", 2}, {"UNMEASURED", "sec", 1}, {"SECRETS", "sec", 2}, {"CPUID", "sec", 3}, {"VMSA", "bsp", 0}}
+				for i := 1; i < vc; i++ {
+					ops = append(ops, snpOp{"VMSA", "ap", 0})
+				}
+				return ops
+			}()
+			buf, berr := buildSnpImage(hf, run.Seed*131+int64(vc), 0x8123f0a0)
+			other, oerr := buildSnpImage(hf, run.Seed*131+977, 0xabcd1234)
+			if berr != nil || oerr != nil {
+				run.Infra(fmt.Errorf("history images: %v %v", berr, oerr))
+				return
+			}
+			rst := uint32(0x8123f0a0)
+			steps := []struct {
+				name string
+				do   func()
+			}{
+				{"as built", func() {}},
+				{"one ROM byte changed in place", func() { buf[1000] ^= 0x40 }},
+				{"a byte of the second ROM page changed in place", func() { buf[4096+2000] ^= 1 }},
+				{"another image of the same size loaded into the buffer", func() { copy(buf, other); rst = 0xabcd1234 }},
+				{"the first image's first page copied back", func() { b2, _ := buildSnpImage(hf, run.Seed*131+int64(vc), 0x8123f0a0); copy(buf[:4096], b2[:4096]) }},
+			}
+			for _, st := range steps {
+				st.do()
+				var got []byte
+				var gerr error
+				func() {
+					defer func() {
+						if p := recover(); p != nil {
+							gerr = fmt.Errorf("PANIC: %v", p)
+						}
+					}()
+					got, gerr = sev.LaunchDigest(&sev.LaunchOptions{Vcpus: vc, Product: productOf(prod)}, buf)
+				}()
+				want := refDigest(e, consts, buf, hf, hops, rst)
+				if gerr != nil {
+					run.Violation("wellformed-rejected:history", fmt.Sprintf("one buffer measured repeatedly (%s, %d vCPUs, %s): rejected: %v", st.name, vc, prod, gerr), nil)
+					break
+				}
+				if !bytes.Equal(got, want) {
+					run.Violation("digest-differs:history", fmt.Sprintf("one buffer measured repeatedly: after step %q the digest for %d vCPUs on %s is not the launch digest of the bytes now in the buffer", st.name, vc, prod), nil)
+					break
+				}
+				run.Case(fmt.Sprintf("history:%s:%d:%s", prod, vc, st.name), true)
+			}
+		}
+	}
 	for _, n := range []int{0, -1} {
 		if _, err := sev.LaunchDigest(&sev.LaunchOptions{Vcpus: n, Product: productOf("Milan")}, img); err == nil {
 			run.Violation("bad-vcpus-accepted", fmt.Sprintf("launch vCPU count %d accepted", n), nil)
@@ -426,7 +494,7 @@ func RunC04(run *vk.Run) {
 	run.AddDrift(0)
 	_ = drift
 	run.Exhaustive = !run.IsQuick()
-	run.Rule = "every firmware description emitted by TLC from MeasureSnp.tla (all section lists up to 3 over 5 kinds x 3 addresses x 2 lengths x 2 vCPU counts x 2 products; all lists up to 3 over 3 kinds x addresses from guest-physical 0 with ROMs of 2, 5 and 7 pages and the metadata at three places of the image (thorough: lists up to 4 over 4 kinds, 7 ROM sizes); all lists up to 3 over aligned/unaligned addresses and zero/unaligned lengths; thorough: all lists of 4 over 4 kinds x 4 addresses with 3 vCPUs) is built as a real image with pseudo-random contents; accepted descriptions must give the digest computed from the emitted operation sequence through the PAGE_INFO/VMSA tables, malformed ones must be rejected; quick replays a seeded fifth"
+	run.Rule = "every firmware description emitted by TLC from MeasureSnp.tla (all section lists up to 3 over 5 kinds x 3 addresses x 2 lengths x 2 vCPU counts x 2 products; all lists up to 3 over 3 kinds x addresses from guest-physical 0 with ROMs of 2, 5 and 7 pages and the metadata at three places of the image (thorough: lists up to 4 over 4 kinds, 7 ROM sizes); all lists up to 3 over aligned/unaligned addresses and zero/unaligned lengths; thorough: all lists of 4 over 4 kinds x 4 addresses with 3 vCPUs) is built as a real image with pseudo-random contents; accepted descriptions must give the digest computed from the emitted operation sequence through the PAGE_INFO/VMSA tables, malformed ones must be rejected; all lists of 4 over the three mandatory kinds and an unknown kind at 4 addresses (the unknown kind being the only defect); quick replays a seeded fifth; plus one buffer measured repeatedly with in-place changes between measurements (expectations from the definition only)"
 }
 
 // OutOfOrderImage builds a 2-page image whose SNP metadata lists its sections out of address order and
